@@ -93,12 +93,9 @@ def resolve_ifs_rules(run):
     run.check(ok, R, R + "|resolve|arms", f.loc(), "a decided #if is replaced, in place, by its true arm when the condition is true and by its false arm (if any) otherwise",
               "resolve_ifs: %s" % why)
     # the count is incremented once per expanded #if (drives the fixed point of the pre-pass)
-    incs = []
-    for bi, si, st in f.stmts():
-        if st["k"] == "assign" and st["rv"]["k"] == "binop" and st["rv"]["op"].startswith("Add") and const_int(st["rv"]["r"]) == 1:
-            ll = op_local(st["rv"]["l"])
-            if ll is not None and f.local_name(f.copy_root(ll)) == "resolved_count":
-                incs.append(bi)
+    from rules_sym import returned_counter, counter_increments
+    counter = returned_counter(f)
+    incs = counter_increments(f, counter)
     counted = len(incs) == 1 and f.dominates(rb, incs[0])
     if counted:
         # no way from the removal to the next node that avoids the increment
@@ -119,7 +116,7 @@ def resolve_ifs_rules(run):
     run.check(counted, R, R + "|resolve|counted", f.loc(), "every expansion is counted (the pre-pass repeats while anything was expanded)",
               "resolve_ifs does not count every expansion: nested #if blocks uncovered by an expansion would not get another round")
     # the count is what is returned
-    okr = any(st["k"] == "assign" and st["place"]["l"] == 0 and st["rv"]["k"] == "agg" and st["rv"].get("variant") == "Ok" and deep(f, st["rv"]["ops"][0]).startswith("var:resolved_count") for bi, si, st in f.stmts())
+    okr = counter is not None and len(incs) >= 1 and any(const_int(d[3]["rv"]["op"]) == 0 for d in f.full_defs(counter) if d[0] == "stmt" and d[3]["k"] == "assign" and d[3]["rv"]["k"] == "use")
     run.check(okr, R, R + "|resolve|returns-count", f.loc(), "the number of expansions is returned", "resolve_ifs does not return its expansion count")
 
 
